@@ -22,8 +22,8 @@ Q = "proxy::blocking::TaskBlockingQueue"
 
 MUTANTS = [
     {"name": "state-read-before-counter", "file": "src/proxy/blocking.rs", "old": "        let counter = RefAutoCounter::new(&self.running_cmd);\n        let BlockingState { blocking, term } = self.get_blocking_state();", "new": "        let BlockingState { blocking, term } = self.get_blocking_state();\n        let counter = RefAutoCounter::new(&self.running_cmd);", "expect": "C11.D1:counter-before-state"},
-    {"name": "no-recheck-after-enqueue", "file": "src/proxy/blocking.rs", "old": "        let BlockingState { blocking, .. } = self.get_blocking_state();\n        if !blocking {\n            self.blocking_handle_inner.release_all();\n        }\n        Ok(())", "new": "        Ok(())", "expect": "C11.D1:recheck"},
-    {"name": "relaxed-counter", "file": "src/proxy/blocking.rs", "old": "        counter.fetch_add(1, Ordering::SeqCst);\n        Self(counter)", "new": "        counter.fetch_add(1, Ordering::Relaxed);\n        Self(counter)", "expect": "C11.D3"},
+    {"name": "no-recheck-after-enqueue", "file": "src/proxy/blocking.rs", "old": "        let BlockingState { blocking, .. } = self.get_blocking_state();\n        if !blocking {\n            self.blocking_handle_inner.release_all();\n        }\n        Ok(())", "new": "        Ok(())", "expect": "C11.D1"},
+    {"name": "relaxed-counter", "file": "src/proxy/blocking.rs", "after": "impl AutoCounter {", "old": "        counter.fetch_add(1, Ordering::SeqCst);\n        Self(counter)", "new": "        counter.fetch_add(1, Ordering::Relaxed);\n        Self(counter)", "expect": "C11.D3"},
     {"name": "release-unconditional-in-drop", "file": "src/proxy/blocking.rs", "old": "        if prev_blocking_count == 1 {\n            info!(\"migraition stop blocking\");", "new": "        if prev_blocking_count >= 1 {\n            info!(\"migraition stop blocking\");", "expect": "C11.D2:drop"},
     {"name": "preswitch-without-waiting", "file": "src/migration/scan_task.rs", "old": "        while !ctrl.blocking_done() {\n            tokio::time::sleep(Duration::from_millis(1)).await;\n        }\n        state.set_state(MigrationState::PreSwitch);", "new": "        if !ctrl.blocking_done() {\n            tokio::time::sleep(Duration::from_millis(1)).await;\n        }\n        state.set_state(MigrationState::PreSwitch);", "expect": "C11.D2:pre_block"},
     {"name": "extra-decrement", "file": "src/proxy/blocking.rs", "old": "                return self.inner_sender.send(counter_task).map_err(|err| {", "new": "                return self.inner_sender.send(counter_task).map_err(|err| {\n                    self.running_cmd.fetch_sub(1, Ordering::SeqCst);", "expect": "C11.D1:counter-raii-only"},
